@@ -295,7 +295,16 @@ func showValTo(sb *strings.Builder, t *Ty, v reflect.Value, canon bool) {
 	case reflect.Uint, reflect.Uint8, reflect.Uint16, reflect.Uint32, reflect.Uint64:
 		sb.WriteString("i " + strconv.FormatUint(v.Uint(), 10))
 	case reflect.Float32:
-		sb.WriteString("f " + strconv.FormatUint(uint64(math.Float32bits(float32(v.Float()))), 10))
+		// exact bit pattern: v.Float() widens to float64, which quiets signalling NaNs
+		var bits uint32
+		if v.CanAddr() {
+			bits = *(*uint32)(v.Addr().UnsafePointer())
+		} else if f, ok := v.Interface().(float32); ok {
+			bits = math.Float32bits(f)
+		} else {
+			bits = math.Float32bits(float32(v.Float()))
+		}
+		sb.WriteString("f " + strconv.FormatUint(uint64(bits), 10))
 	case reflect.Float64:
 		sb.WriteString("f " + strconv.FormatUint(math.Float64bits(v.Float()), 10))
 	case reflect.String:
